@@ -118,6 +118,7 @@ def run(ck, ix, tier):
 
     # ------------------------------------------------------------ __eq__ structure
     eq_zero_rule(ck, ix)
+    eq_conversion_failure_rule(ck, ix)
     fi = ix.func(PQ, "PlainQuantity.__eq__")
     # DimensionalityError -> False
     trys = [t for t in walk_local(fi.node) if isinstance(t, ast.Try) and any(h.type is not None and "DimensionalityError" in norm(h.type) for h in t.handlers)]
@@ -286,3 +287,61 @@ def eq_zero_rule(ck, ix):
         ck.check(okd, "G-PROV", "PlainQuantity.__eq__|both-zero-answer-is-dimensionality-equality", fi.loc(st),
                  "two zeros are equal iff the dimensionalities are", f"`{norm(st).splitlines()[0]}` is not the dimensionality comparison")
     ck.floor("G-TAG", n, 1, "statements of PlainQuantity.__eq__ governed by a zero test of the magnitudes")
+
+
+
+def eq_conversion_failure_rule(ck, ix):
+    """G-ERR: PlainQuantity.__eq__ turns a DimensionalityError of the conversion into `False`.  That is only right if
+    the error means "different dimensionality".  Every `raise DimensionalityError(...)` of the registry's `_convert`
+    chain (context -> non-multiplicative -> plain) is therefore classified by the facts that hold where it executes:
+      * a dimensionality inequality is known            -> fine
+      * the error wraps a ValueError of _validate_and_extract (operands with more than one offset unit, or an offset
+        unit inside a compound without autoconvert: no physical value is defined for them) -> exempt, equality False
+      * anything else raises for operands of the SAME dimensionality: `==` answers False for physically equal values
+        while ordering (which compares root-unit magnitudes) finds them equal: equality is not transitive."""
+    from .. import shape as _s
+    fe = ix.func(PQ, "PlainQuantity.__eq__")
+    handlers = [h for t in walk_local(fe.node) if isinstance(t, ast.Try) for h in t.handlers
+                if h.type is not None and "DimensionalityError" in norm(h.type)
+                and any(isinstance(c, ast.Call) and "_convert_magnitude" in call_name(c) for st in t.body for c in ast.walk(st))]
+    ck.floor("G-ERR", len(handlers), 1, "handler of DimensionalityError around the conversion in PlainQuantity.__eq__")
+    # Does the handler answer False for EVERY conversion failure?  A `return <False>` of the handler that executes where
+    # the dimensionalities are known to differ, or inside the handler of a second attempt (comparison in root units),
+    # is fine; an unconditional one makes the classification of the raise sites below decisive.
+    dims_equal = lambda a_: isinstance(a_, ast.Compare) and len(a_.ops) == 1 and isinstance(a_.ops[0], ast.Eq) and all("dimensionality" in norm(x) for x in (a_.left, a_.comparators[0]))
+    def falsy(v):
+        return (isinstance(v, ast.Constant) and v.value is False) or (isinstance(v, ast.Call) and v.args and isinstance(v.args[0], ast.Constant) and v.args[0].value is False)
+    unconditional = []
+    for h in handlers:
+        for r in [r for st in h.body for r in ast.walk(st) if isinstance(r, ast.Return) and r.value is not None and falsy(r.value)]:
+            nested = False
+            cur = getattr(r, "_parent", None)
+            while cur is not None and cur is not h:
+                nested = nested or isinstance(cur, ast.ExceptHandler)
+                cur = getattr(cur, "_parent", None)
+            if not nested and not _s.holds_at(r, fe.node, dims_equal, False):
+                unconditional.append(r)
+    if not unconditional:
+        ck.ok("G-ERR", "__eq__|conversion-failure-means-different-dimension|handler", fe.loc(), "the handler answers False only for different dimensionalities (otherwise it compares root-unit magnitudes)")
+        return
+    dim_differs = lambda a_: isinstance(a_, ast.Compare) and len(a_.ops) == 1 and isinstance(a_.ops[0], ast.Eq) and all("dim" in norm(x).lower() for x in (a_.left, a_.comparators[0]))
+    n = 0
+    for mod, q in (("pint.facets.nonmultiplicative.registry", "GenericNonMultiplicativeRegistry._convert"), ("pint.facets.context.registry", "GenericContextRegistry._convert"),
+                   ("pint.facets.plain.registry", "GenericPlainRegistry._convert")):
+        f = ix.func(mod, q)
+        ck.analysed(f)
+        fn = f.node
+        for r in [r for r in ast.walk(fn) if isinstance(r, ast.Raise) and r.exc is not None and "DimensionalityError" in norm(r.exc) and not _s.dead(r, fn)]:
+            n += 1
+            if _s.holds_at(r, fn, dim_differs, False):
+                ck.ok("G-ERR", f"__eq__|conversion-failure-means-different-dimension|{q.split('.')[-2]}|dimension-mismatch", f.loc(r), "raised where the dimensionalities are known to differ")
+                continue
+            par = getattr(r, "_parent", None)
+            if isinstance(par, ast.ExceptHandler) and par.type is not None and "ValueError" in norm(par.type):
+                ck.ok("G-ERR", f"__eq__|conversion-failure-means-different-dimension|{q.split('.')[-2]}|invalid-offset-combination", f.loc(r), "wraps the ValueError of _validate_and_extract: the operand has no defined physical value")
+                continue
+            facts = [(norm(a_), t_) for a_, t_ in _s.facts_at(r, fn)]
+            side = "offset-source-to-delta-destination" if any("src" in a_ and "offset" in a_ and t_ for a_, t_ in facts) else ("delta-source-to-offset-destination" if any("dst" in a_ and "offset" in a_ and t_ for a_, t_ in facts) else "other")
+            ck.check(False, "G-ERR", f"__eq__|conversion-failure-means-different-dimension|{side}", f.loc(r), "",
+                     f"`{norm(r)}` raises DimensionalityError for operands of the SAME dimensionality (facts: {[a_ for a_, t_ in facts if t_][:3]}); PlainQuantity.__eq__ answers False for it, so physically equal quantities compare unequal while ordering finds them equal")
+    ck.floor("G-ERR", n, 3, "raise DimensionalityError sites in the registry _convert chain")
